@@ -14,8 +14,9 @@ META = dict(
          'threads push, pop and steal on leaf / shared / root stores under injected delays and the final accounting must hold every task exactly '
          'once. Held on the histories executed; interleavings are sampled.',
     note='Trusts the models in harness/c35_hbb.c. Tasks are fabricated parsec_task_t in type-stable memory (as the runtime\'s mempools); '
-         'push_all_by_priority is only issued by the owner of a leaf buffer (pbq discipline). The ltq combination (heaps stored in hbbuffers and '
-         'freed by heap_remove while another thread scans the buffer) is not driven concurrently. maxheap has no internal concurrency.')
+         'push_all_by_priority is only issued by the owner of a leaf buffer (pbq discipline). The ltq combination (heaps stored in hbbuffers, cut and '
+         'freed by heap_remove) is driven for conservation in the production flavour; under ASan it shows the recorded finding (pop_best reads a freed heap). '
+         'maxheap itself has no internal concurrency.')
 
 RULE = ('one case = one operation history on fresh buffers / heaps with the full scan after every operation (concurrent: one stress run); '
         'non-trivial = at least 3 operations; distinct = distinct hashes of (buffer geometry, operation sequence with priorities); concurrent runs '
@@ -57,19 +58,36 @@ def run(ctx):
             jobs.append(dict(kind='conc', fl=fl, args=['--mode', 'conc', '--threads', t, '--leaf', leaf, '--mid', mid, '--groups', g, '--prio-leaves', pl, '--per-thread', per,
                                                        '--rounds', conc_rounds[fl], '--yield', y, '--yield-us', yus, '--seed', S * 131 + i]))
 
+    # ltq discipline (heaps kept in the buffers): conservation in the production flavour, one sanitizer probe
+    for i, (t, leaf, per) in enumerate([(2, 1, 8), (4, 4, 16), (8, 2, 12)]):
+        jobs.append(dict(kind='ltq', fl='rel', args=['--mode', 'ltq', '--threads', t, '--leaf', leaf, '--per-thread', per, '--rounds', conc_rounds['rel'] * 2, '--seed', S * 71 + i]))
+    jobs.append(dict(kind='ltqprobe', fl='asan', args=['--mode', 'ltq', '--threads', 4, '--leaf', 4, '--per-thread', 16, '--rounds', conc_rounds['asan'], '--seed', S * 71 + 9]))
+
     def one(j):
         cmd = [exe[j['fl']]] + [str(a) for a in j['args']]
         return j, ctx.run(cmd, timeout=7200 if thorough else 900, stall_s=120, tag='%s-%s-%d' % (j['kind'], j['fl'], id(j)))
 
-    res = ctx.pmap(one, [j for j in jobs if j['kind'] != 'conc'], jobs=8) + ctx.pmap(one, [j for j in jobs if j['kind'] == 'conc'], jobs=2)
+    res = ctx.pmap(one, [j for j in jobs if j['kind'] in ('heap', 'hbb')], jobs=8) + ctx.pmap(one, [j for j in jobs if j['kind'] not in ('heap', 'hbb')], jobs=2)
     for j, r in res:
         what = '%s %s' % (j['fl'], ' '.join(str(a) for a in j['args']))
         hist = r.of('history')
+        if j['kind'] == 'ltqprobe':
+            ctx.evaluations += 1; ctx.add_cov('ltq_sanitizer_probes', 1)
+            uaf = [x for x in r.san if 'heap-use-after-free' in x and 'parsec_hbbuffer_pop_best' in x and 'heap_destroy' in x]
+            if uaf:      # keyed by the mechanism, not by harness frame names
+                ctx.violation('ltq:pop_best-reads-freed-heap', '%s: ASan heap-use-after-free: parsec_hbbuffer_pop_best (hbbuffer.c) reads the priority of a heap that '
+                              'another thread emptied and freed in heap_remove/heap_destroy (maxheap.c)' % what, r)
+                continue
         st = ctx.absorb(r, what, files={'history.json': [h for h in hist if h.get('why') == 'violation']} if hist else None)
         if st == 'stalled':
             ctx.inconclusive_case('stalled/timed out: ' + what); continue
         s = r.summary()
         if not s:
+            continue
+        if j['kind'] in ('ltq', 'ltqprobe'):
+            ctx.note_case(('ltq', j['fl'], tuple(j['args'][2:]), s['removes'], s['splits'], s['steals']), nontrivial=s['steals'] > 0 and s['splits'] > 0)
+            for k in ('ops', 'heaps_built', 'removes', 'splits', 'steals'):
+                ctx.add_cov('ltq_' + k, s[k])
             continue
         if j['kind'] == 'conc':
             nontriv = s['steals'] > 0 and s['root_in'] > 0 and s['pops'] > 0
